@@ -129,23 +129,25 @@ struct Array {
     }
 
     void operator+=(const Array &src) {
-        const SizeT n_size = (Size() + src.Size());
+        const SizeT src_size = src.Size();
+        const SizeT n_size   = (Size() + src_size);
 
         if (n_size > Capacity()) {
             resize(n_size);
         }
 
-        index_ += src.Size();
-
-        Type_T       *storage  = Storage();
+        // Append after the existing items (src may be this array: read its storage after resizing).
+        Type_T       *storage  = (Storage() + Size());
         const Type_T *src_item = src.First();
-        const Type_T *src_end  = (src_item + src.Size());
+        const Type_T *src_end  = (src_item + src_size);
 
         while (src_item < src_end) {
             Memory::Initialize(storage, *src_item);
             ++storage;
             ++src_item;
         }
+
+        setSize(n_size);
     }
 
     void operator+=(Type_T &&item) {
